@@ -206,6 +206,10 @@ class AppSocket:
             if b"\r\n\r\n" in self.hs_in:
                 self._answer_handshake()
             return len(data)
+        wf = getattr(self.s, "writes_fail", None)
+        if wf and self.idx == wf[0] and self.s.now >= wf[1]:
+            # a half-dead path: the peer has become unreachable for writes while nothing (no reset, no end of stream) is read
+            raise OSError(errno.EHOSTUNREACH, "No route to host")
         self.out += data
         frames, self.out = parse_client_frames(self.out)
         for fin, op, payload, masked in frames:
